@@ -1,0 +1,12 @@
+//go:build verif
+
+package boxes
+
+// Contracts for the deductive verifier in /verif (build tag verif: not compiled
+// into normal builds).
+
+// Every box type embeds BoxFields and returns a pointer to it: the method is a
+// function of the receiver and never returns nil (assumed for all implementations).
+//@ func iface (boxes.Box).Box
+//@   pure
+//@   ensures result != nil
